@@ -252,16 +252,11 @@ def is_int_fill(fill):
     return fill in ("A", "B", "E")
 
 
-def fills_for(dtype, quick=False):
+def fills_for(dtype):
     dt = _dtype_of(dtype, 1)
     if np.dtype(dt).kind == "f":
         return ["A", "B", "C"]
     return ["A", "B"]
-
-
-def kw_for(kind, **kw):
-    """np: axis=..., xarray: dim=..."""
-    return kw
 
 
 # ------------------------------------------------------------------------------------------------------------------------------
@@ -656,7 +651,7 @@ def _batchable(out, backends, D, quick, rng):
 def _random(out, backends, D, quick, rng, seed):
     """seeded random cases beyond the exhaustive bound: sizes up to 4, random values, random argument counts"""
     sp = Space("seeded random extension (sizes up to 4, random data)", "random")
-    budget = 600 if quick else 6000
+    budget = 1500 if quick else 8000
     marked = [n for n in dir(backends.Backend) if not n.startswith("_") and getattr(getattr(backends.Backend, n), "batchable", False)]
     for it in range(budget):
         kind = rng.choice(KINDS)
